@@ -250,7 +250,7 @@ def jobs(tier):
     out = []
     for loc in LOCATIONS:
         out.append(dict(name=f"chain2-{loc}", func="chain",
-                        params=dict(nhops=2, first_loc=loc, methods=["GET", "POST"] if quick else ["GET", "POST", "PUT", "HEAD"],
+                        params=dict(nhops=2, first_loc=loc, methods=["GET", "POST", "PUT"] if quick else ["GET", "POST", "PUT", "HEAD"],
                                     locs=["same", "host", "back", "relative", "scheme-relative", "creds", "subdomain"] if quick else None,
                                     small=quick),
                         limits=lim))
